@@ -303,7 +303,8 @@ class CourierServer(metaclass=_CourierServerSingleton):
       courier_server = self.build_server()
       if not courier_server.has_started:
         courier_server.Start()
-      if not self._thread:
+      # A stopped server is restarted with a new supervising thread.
+      if self._thread is None or not self._thread.is_alive():
         self._thread = threading.Thread(
             target=self.run_until_shutdown, daemon=True
         )
